@@ -30,6 +30,20 @@
 (*     in the new memtable and are still truncated.                          *)
 (*     Design (Dev = {}): bound = (lowest in-flight sequence) - 1 at         *)
 (*     rotation, next_sequence-1 if nothing is in flight.                    *)
+(*  "compaction_concurrent_install"  (what the code does, shared with C14)   *)
+(*     _compact is not serialised: a second _compact may start (from another *)
+(*     writer's flush install) while one is waiting for its write latency.   *)
+(*     Both select overlapping inputs; at install time the overlap set       *)
+(*     chosen earlier may already have been replaced (tables removed "if     *)
+(*     present"), so (a) a level >= 1 ends up holding one key in two tables  *)
+(*     and the next compaction into it, which fills in the overlapping       *)
+(*     tables OLDEST first with "first one wins", re-emits the older value   *)
+(*     as the newest table; (b) a delete marker is dropped at the deepest    *)
+(*     level although an older value of the key survives in a table the      *)
+(*     compaction did not merge.  Either way an overwritten / deleted value  *)
+(*     is readable again (with or without a crash).  Design: one compaction  *)
+(*     at a time (a _compact that finds one in flight returns), overlapping  *)
+(*     tables filled in newest first.                                        *)
 (*  "flush_clears_before_install"  (what the code does, shared with C14)     *)
 (*     Memtable.flush() empties the rotated memtable at flush start.         *)
 (*     Harmless for C15 (crash() drops immutable memtables anyway).          *)
@@ -185,13 +199,15 @@ MemSizeOf(mm, mid) ==
 CompactStart(mm, w) ==
     LET cfg == mm.cfg
         sl == SelectLevel(cfg, mm.lv)
-    IN IF sl = 0 THEN Ret(mm, w)
+        busy == \E x \in 1..cfg.nw : x # w /\ mm.cl[x].pc = "co"
+    IN IF sl = 0 \/ (busy /\ ~DevOn(mm, "compaction_concurrent_install")) THEN Ret(mm, w)
        ELSE LET sel == mm.lv[sl]
                 tl == Min2(sl + 1, cfg.maxlev)
                 m0 == MergeOldToNew(sel, Len(sel))
                 touches(t) == \E i \in 1..Len(sel) : Overlaps(t.d, sel[i].d)
                 ovl == IF tl = sl THEN <<>> ELSE SelectSeq(mm.lv[tl], touches)
-                m1 == FillInOrder(m0, ovl, 1)            \* as the code: oldest overlapping table first
+                m1 == IF DevOn(mm, "compaction_concurrent_install") THEN FillInOrder(m0, ovl, 1)
+                      ELSE FillInOrder(m0, Rev(ovl), 1)
                 m2 == IF tl = cfg.maxlev THEN Restrict(m1, { k \in DOMAIN m1 : m1[k] # TOMB }) ELSE m1
             IN IF DOMAIN m2 = {}
                THEN Ret([mm EXCEPT !.ncomp = @ + 1], w)
